@@ -8,6 +8,7 @@ import (
 	"encoding/json"
 	"flag"
 	"fmt"
+	"math"
 	"os"
 	"strconv"
 	"strings"
@@ -102,6 +103,32 @@ func pure(acc *ev.Acc) {
 		}
 		if bad != "" {
 			acc.Violate(ev.Violation{Key: fmt.Sprintf("C16/mapclear/%d", mask), Msg: "MapClear: " + bad, Replay: map[string]any{"mode": "mapclear", "mask": mask}})
+		}
+	}
+	// keys that are not equal to themselves (NaN, alone and inside a struct / an interface): delete never matches them
+	{
+		nan := math.NaN()
+		type fk struct {
+			a float64
+			b uint64
+		}
+		for nn := 0; nn <= 2; nn++ {
+			for others := 0; others <= 2; others++ {
+				f1, f2, f3 := map[float64]uint64{}, map[fk]uint64{}, map[interface{}]uint64{}
+				for i := 0; i < nn; i++ {
+					f1[nan], f2[fk{nan, uint64(i)}], f3[nan] = 1, 1, 1
+				}
+				for i := 0; i < others; i++ {
+					f1[float64(i)], f2[fk{1, uint64(i)}], f3[uint64(i)] = 2, 2, 2
+				}
+				machine.MapClear(f1)
+				machine.MapClear(f2)
+				machine.MapClear(f3)
+				acc.Add("mapclear_inputs", 3)
+				if len(f1) != 0 || len(f2) != 0 || len(f3) != 0 {
+					acc.Violate(ev.Violation{Key: fmt.Sprintf("C16/mapclear/nan-%d-%d", nn, others), Msg: fmt.Sprintf("MapClear on maps with %d NaN-containing keys and %d ordinary keys (float64, struct, interface keys) leaves %d / %d / %d entries", nn, others, len(f1), len(f2), len(f3)), Replay: map[string]any{"mode": "mapclear", "size": nn}})
+				}
+			}
 		}
 	}
 	// MapClear on maps of every size 0..300 and around every power of two up to 2^17 (growth and strategy thresholds)
